@@ -575,7 +575,11 @@ fn sample_matches() -> Vec<Vec<pz::Match>> {
     ]
 }
 fn seeds_pz_matches(_r: &mut Rng) -> Vec<Seed> {
-    sample_matches().into_iter().filter_map(|ms| crate::util::guarded(|| pz::encode_matches(&ms).ok()).ok().flatten()).map(|(b, _)| s0(b)).collect()
+    // first: a hand-packed stream the encoder refuses to write - Global{0, 6} followed by Far2Long with
+    // distance 0 (copy_backward_reference must reject it: `i % (len - start)` would divide by zero)
+    let mut v = vec![s0(vec![1, 0, 0, 0, 48, 0, 48, 0, 0, 0])];
+    v.extend(sample_matches().into_iter().filter_map(|ms| crate::util::guarded(|| pz::encode_matches(&ms).ok()).ok().flatten()).map(|(b, _)| s0(b)));
+    v
 }
 thread_local! {
     static PAZIP: RefCell<Option<zipora::compression::dict_zip::PaZipCompressor>> = RefCell::new({
